@@ -11,7 +11,7 @@ UNDER = {
     "str": {"ty": "str", "valid": ['"ok"', '"a@b"'], "invalid": ['""'], "reject_if": 'len(v) == 0', "fmt": "{v}", "fmt0": "{x.0}"},
     "float": {"ty": "float", "valid": ["1.5", "0.25"], "invalid": ["-2.5"], "reject_if": "v < 0.0", "fmt": "{v}", "fmt0": "{x.0}"},
 }
-HOOKS = ["from_underlying", "single_from_x", "two_from_x", "none"]
+HOOKS = ["from_underlying", "single_from_x", "two_from_x", "none", "from_underlying_plus_from_x", "from_underlying_plus_other_sig", "from_underlying_plus_methods"]
 
 
 def newtype_decl(name, under, hook):
@@ -34,11 +34,24 @@ def newtype_decl(name, under, hook):
     elif hook == "two_from_x":
         lines[0] += ":"
         lines += hook_fn("from_value") + hook_fn("from_other")
+    elif hook == "from_underlying_plus_from_x":
+        # `from_underlying` is THE hook by name, however many other from_* constructors of the same shape exist
+        alt = ["    def from_offset(v: %s) -> Result[%s, str]:" % (u["ty"], name), '        println("ALT %s")' % name, "        return Ok(%s(v))" % name, ""]
+        lines[0] += ":"
+        lines += (alt + hook_fn("from_underlying")) if under != "float" else (hook_fn("from_underlying") + alt)
+    elif hook == "from_underlying_plus_other_sig":
+        other = "str" if u["ty"] != "str" else "int"
+        alt = ["    def from_text(t: %s) -> Result[%s, str]:" % (other, name), '        println("ALT %s")' % name, '        return Err("unsupported")', ""]
+        lines[0] += ":"
+        lines += hook_fn("from_underlying") + alt
+    elif hook == "from_underlying_plus_methods":
+        lines[0] += ":"
+        lines += ["    def describe(self) -> str:", '        return "%s"' % name, ""] + hook_fn("from_underlying") + ["    def fresh_default() -> int:", "        return 1", ""]
     return lines
 
 
 def has_hook(hook):
-    return hook in ("from_underlying", "single_from_x")
+    return hook in ("from_underlying", "single_from_x", "from_underlying_plus_from_x", "from_underlying_plus_other_sig", "from_underlying_plus_methods")
 
 
 # construction sites: name -> (extra top-level decl lines, statements using VALUE) ; every site prints MADE right after constructing
